@@ -54,6 +54,48 @@ def _one(prop, entry, root):
         shutil.rmtree(tmp, ignore_errors=True)
 
 
+def _one_rewrite(prop, mode, root):
+    """A behaviour-preserving rewrite of the whole package (sa/refactor_fuzz.py): the rule set must stay silent."""
+    from .refactor_fuzz import rewrite
+    tmp = Path(tempfile.mkdtemp(prefix=f"sa_fuzz_{prop}_"))
+    try:
+        shutil.copytree(root / "pdb2pqr", tmp / "pdb2pqr", ignore=shutil.ignore_patterns("__pycache__"))
+        for path in (tmp / "pdb2pqr").rglob("*.py"):
+            new = rewrite(path.read_text(encoding="utf-8"), mode)
+            compile(new, str(path), "exec")
+            path.write_text(new, encoding="utf-8")
+        env = dict(os.environ, VERIF_REPO=str(tmp), VERIF_EVIDENCE_DIR=str(tmp / "ev"), PYTHONPATH=str(VERIF), PYTHONDONTWRITEBYTECODE="1")
+        proc = subprocess.run([sys.executable, "-m", "sa.cli", prop, "--tier", "quick"], cwd=VERIF, env=env, capture_output=True, text=True, timeout=900)
+        fired = [ln for ln in proc.stdout.splitlines() if ln.startswith("  violated ")]
+        result = {0: "silent", 1: "fired", 2: "analysis-error"}.get(proc.returncode, f"exit {proc.returncode}")
+        out = {"name": f"rewrite:{mode}", "expect": "silent", "result": result, "rules": sorted({f.split()[1] for f in fired})[:6]}
+        if result == "analysis-error":
+            out["message"] = next((ln for ln in proc.stdout.splitlines() if ln.startswith("ANALYSIS-ERROR")), "")[:200]
+        return out
+    finally:
+        shutil.rmtree(tmp, ignore_errors=True)
+
+
+def _one_seed(prop, sdir, root):
+    """A seeded change written by an independent sub-agent (seeded/<id>/patch.diff): the rule set must report it, unless it
+    is one of the documented misses (meta.json lists no rule of this property for it)."""
+    meta = json.loads((sdir / "meta.json").read_text())
+    expect = "fire" if prop in meta.get("caught_by", {}) else "documented-miss"
+    tmp = Path(tempfile.mkdtemp(prefix=f"sa_seed_{prop}_"))
+    try:
+        shutil.copytree(root / "pdb2pqr", tmp / "pdb2pqr", ignore=shutil.ignore_patterns("__pycache__"))
+        pr = subprocess.run(["patch", "-p1", "-s", "-i", str(sdir / "patch.diff")], cwd=tmp, capture_output=True, text=True)
+        if pr.returncode != 0:
+            return {"name": f"seed:{sdir.name}", "expect": expect, "result": "patch-does-not-apply"}
+        env = dict(os.environ, VERIF_REPO=str(tmp), VERIF_EVIDENCE_DIR=str(tmp / "ev"), PYTHONPATH=str(VERIF), PYTHONDONTWRITEBYTECODE="1")
+        proc = subprocess.run([sys.executable, "-m", "sa.cli", prop, "--tier", "quick"], cwd=VERIF, env=env, capture_output=True, text=True, timeout=900)
+        fired = [ln for ln in proc.stdout.splitlines() if ln.startswith("  violated ")]
+        result = {0: "silent", 1: "fired", 2: "analysis-error"}.get(proc.returncode, f"exit {proc.returncode}")
+        return {"name": f"seed:{sdir.name}", "expect": expect, "result": result, "rules": sorted({f.split()[1] for f in fired})[:6]}
+    finally:
+        shutil.rmtree(tmp, ignore_errors=True)
+
+
 def run(prop, mod=None, rep=None, verbose=True):
     try:
         corpus = importlib.import_module(f"sa.audit_corpus.{prop.lower()}").MUTATIONS
@@ -61,11 +103,16 @@ def run(prop, mod=None, rep=None, verbose=True):
         print(f"self-audit: no corpus for {prop}")
         return []
     root = repo_root()
+    from .refactor_fuzz import MODES
     with cf.ThreadPoolExecutor(max_workers=min(16, os.cpu_count() or 4)) as ex:
-        results = list(ex.map(lambda e: _one(prop, e, root), corpus))
+        seeds = sorted(d for d in (VERIF / "seeded").glob(f"{prop}-*") if (d / "patch.diff").exists() and (d / "meta.json").exists())
+        futs = [ex.submit(_one, prop, e, root) for e in corpus] + [ex.submit(_one_rewrite, prop, m, root) for m in MODES] + \
+            [ex.submit(_one_seed, prop, d, root) for d in seeds]
+        results = [f.result() for f in futs]
     weak = 0
     for r in results:
         good = (r["expect"] == "fire" and r["result"] in ("fired",)) or (r["expect"] == "silent" and r["result"] == "silent") \
+            or (r["expect"] == "documented-miss" and r["result"] in ("silent", "fired")) \
             or (r["expect"] == "fire-or-error" and r["result"] in ("fired", "analysis-error"))
         r["as_expected"] = good
         if not good:
